@@ -70,7 +70,10 @@ def module_source(i, st):
     attrs = []
     gram = []
     if st["source"] == "file":
-        gram.append("#[grammar = %s]" % json.dumps(st["path"]))
+        n = st.get("pieces", 1)
+        paths = [st["path"].replace(".pest", ".%d-%d.pest" % (n, k)) for k in range(n)] if n > 1 else [st["path"]]
+        for pth in paths:
+            gram.append("#[grammar = %s]" % json.dumps(pth))
     else:
         gram.append("#[grammar_inline = %s]" % rust_str(st["text"]))
     opts = ["#[%s]" % o for o in st["options"]]
@@ -98,7 +101,7 @@ def rust_str(s):
 
 
 def key_of(st, root):
-    k = {"name": st["name"], "source": st["source"], "options": st["options"], "options_last": st.get("options_last", True)}
+    k = {"name": st["name"], "source": st["source"], "options": st["options"], "options_last": st.get("options_last", True), "pieces": st.get("pieces", 1) if st["source"] == "file" else 1}
     if st["source"] == "file":
         k["root"] = root  # the real derive always embeds the absolute grammar path (include_str!)
     return json.dumps(k, sort_keys=True)
